@@ -69,7 +69,7 @@ def reference(seedval="0", cfg="default"):
     R = {}
     try:
         box.build(layout())
-        env = dict(os.environ, CMINXDIR=box.path("cfg"), HOME=box.path("home"), XDG_CONFIG_HOME=box.path("home", ".config"),
+        env = dict(os.environ, CMINXDIR=box.path("cfg"), HOME=box.path("home"), XDG_CONFIG_HOME=box.path("home", ".config"), PWD=box.path("stale-pwd"),
                    PYTHONHASHSEED=seedval)
         for x, rel in INPUTS.items():
             out = box.path("work", "ref-" + x)
@@ -201,7 +201,7 @@ def run_seed(seedval, RR):
     msgs = []
     try:
         box.build(layout())
-        env = dict(os.environ, CMINXDIR=box.path("cfg"), HOME=box.path("home"), XDG_CONFIG_HOME=box.path("home", ".config"),
+        env = dict(os.environ, CMINXDIR=box.path("cfg"), HOME=box.path("home"), XDG_CONFIG_HOME=box.path("home", ".config"), PWD=box.path("stale-pwd"),
                    PYTHONHASHSEED=str(seedval))
         hist = ["K", "D", "T", "E", "D2", "K"]
         p = subprocess.run([common.PYTHON, "-c", CLI % common.REPO_SRC, "-r", "-o", "out"] + [INPUTS[x] for x in hist],
